@@ -8,7 +8,7 @@ CONSTANTS
   Cuts = FALSE
   SectorSize = 32
   MaxFaults = 1
-  MaxRetry = 1
+  MaxRetry = 0
   Kinds = {"T2", "T1S", "T1D", "T512"}
   Sizes = {1, 2, 3, 5}
   Pads = {0, 1, 2, 3}
